@@ -124,7 +124,7 @@ func fillDump(c *Case, d dumpCache, family string, max int) {
 
 func propTransfer(c *Case) {
 	families := []string{kindSharded, kindSync, "Of[string]", "Of[struct]"}
-	names := []string{"alpha", "beta", "gamma", "delta"}
+	names := []string{"alpha", "alpha&v=2", "be ta+1", "100%#x"}
 
 	c.Bubble(func() {
 		exp := &cache.HTTPTransfer{}
@@ -303,14 +303,25 @@ func TestC14HashLaws(t *testing.T) {
 	runCheck(t, "C14", "C14HashLaws", c14bRule, propHashLaws)
 }
 
-func childHash(c *Case, order []int) uint64 {
-	strs := make([]string, len(order))
+// childHash evaluates GobTypesHash in a fresh process; cuts[i] starts a new GobRegister call
+// before element i (one variadic call per group).
+func childHash(c *Case, order []int, cuts ...bool) uint64 {
+	var sb strings.Builder
+
 	for i, v := range order {
-		strs[i] = strconv.Itoa(v)
+		if i > 0 {
+			if i < len(cuts) && !cuts[i] {
+				sb.WriteByte(',')
+			} else {
+				sb.WriteByte('|')
+			}
+		}
+
+		sb.WriteString(strconv.Itoa(v))
 	}
 
 	cmd := exec.Command(os.Args[0])
-	cmd.Env = append(os.Environ(), "VERIF_CHILD=hash", "VERIF_HASH_ORDER="+strings.Join(strs, ","))
+	cmd.Env = append(os.Environ(), "VERIF_CHILD=hash", "VERIF_HASH_ORDER="+sb.String())
 
 	out, err := cmd.CombinedOutput()
 	if err != nil {
@@ -377,9 +388,24 @@ func propHashLaws(c *Case) {
 	o1, _ := drawOrder(c, set, "o1")
 	o2, rep2 := drawOrder(c, set, "o2")
 
+	// grouping of the second order into variadic GobRegister calls (the first uses one value per call)
+	cuts := make([]bool, len(o2))
+	grouped := false
+
+	for i := range cuts {
+		cuts[i] = i == 0 || c.Bool("o2.newcall")
+		if !cuts[i] {
+			grouped = true
+		}
+	}
+
 	h1 := childHash(c, o1)
-	h2 := childHash(c, o2)
-	c.Tracef("set %v: order %v -> %d; order %v -> %d", set, o1, h1, o2, h2)
+	h2 := childHash(c, o2, cuts...)
+	c.Tracef("set %v: order %v (one value per call) -> %d; order %v with call boundaries %v -> %d", set, o1, h1, o2, cuts, h2)
+
+	if grouped {
+		c.Class("variadic-registration")
+	}
 	c.Assert(h1 == h2, "hash-order-dependent", "types hash of the same set differs: order %v -> %d, order %v -> %d", o1, h1, o2, h2)
 
 	if len(set) >= 2 && (rep2 || fmt.Sprint(o1) != fmt.Sprint(o2)) {
